@@ -25,10 +25,12 @@ Grammar (everything else is refused)
                re.split(<the separator class>, s), eval(token), type(c), issubclass, isinstance(x, Primitive),
                Terminal(c, b, t), cls(l), str(tree), x.format( *args ) (method dispatch on a node object, or str.format
                of a Primitive.seq), self.conv_fct(v), sep.join(<generator over a list>), "..{a}..".format(a=.., ..) with
-               plain named fields, compile(tree, pset) (the hand model's compile), `lambda value=f: value`,
+               plain named fields (a field holding a format-string fragment makes the result a format string, tpl),
+               range(n), map("{{{0}}}".format, <numbers>) (the text of positional fields), self.x = e / self.x in
+               Primitive.__init__ (the regenerated value is the final self.seq), compile(tree, pset) (the hand model's compile), `lambda value=f: value`,
                eval(code, dict(pset.context), {}) as the returned value of compile: the function stops there and returns
                the code string (what eval does with it stays modelled as in Model/C12_GPPrint.v).
-Types: str, nat (every int), bool, node, ty, cst, pset, fpset, arity (option nat), seqstr, conv, tval, compiled, obj, lists,
+Types: str, nat (every int), bool, node, ty, cst, pset, fpset, arity (option nat), tpl (a format string), conv, tval, compiled, obj, lists,
 pairs, dicts with str keys, option.  Locals are named v_<name> in the generated text.
 C12_FORCE_REFUSE=<gen name>[,..] in the environment forces the refusal of functions (self-test of the proof scripts).
 """
@@ -128,10 +130,14 @@ ATTRS = {
 # env: Python parameter -> type ("self" of an object type: attribute -> (Coq name, type)), heap: the pset holding the
 # Terminal.value of the argument terminals when nodes are printed, ends: "return" | "self", placeholder: the hand model in the same signature.
 FUNCS = [
+    dict(py="__init__", cls="Primitive", gen="gen_Primitive_seq",
+         coq_params="(v_name : string) (v_args : list ty) (v_ret : ty)",
+         env={"name": "str", "args": L("ty"), "ret": "ty"}, selfstore=True, ends="attr:seq",
+         placeholder="Some (prim_seq v_name (List.length v_args))"),
     dict(py="format", cls="Primitive", gen="gen_Primitive_format",
-         coq_params="(self_seq : seqstr) (v_args : list string)",
-         env={"args": L("str")}, selfattrs={"seq": ("self_seq", "seqstr")}, vararg="args", ends="return",
-         placeholder="seq_format self_seq v_args"),
+         coq_params="(self_seq : tpl) (v_args : list string)",
+         env={"args": L("str")}, selfattrs={"seq": ("self_seq", "tpl")}, vararg="args", ends="return",
+         placeholder="tpl_format self_seq v_args"),
     dict(py="format", cls="Terminal", gen="gen_Terminal_format",
          coq_params="(self_conv_fct : conv) (self_value : tval)",
          env={}, selfattrs={"conv_fct": ("self_conv_fct", "conv"), "value": ("self_value", "tval")}, ends="return",
@@ -146,7 +152,7 @@ FUNCS = [
          placeholder="read sub (ps_mapping v_pset) v_string"),
     dict(py="compile", cls=None, gen="gen_compile_code", coq_params="(v_expr : list node) (v_pset : pset)",
          env={"expr": L("node"), "pset": "pset"}, heap="v_pset", ends="return", eval3="code",
-         placeholder="Some (code_of v_pset v_expr)"),
+         placeholder="Some (code_with \",\" v_pset v_expr)"),
     dict(py="renameArguments", cls="PrimitiveSetTyped", gen="gen_renameArguments",
          coq_params="(v_self : pset) (v_kargs : list (string * string))",
          env={"self": "pset", "kargs": D("str")}, kwarg="kargs", ends="self",
@@ -163,7 +169,7 @@ INTERLUDE_FORMAT = """
    Model/C12_GenRt.v); an ephemeral class object has no bound format method. *)
 Definition gen_format (ps : pset) (n : node) (args : list string) : option string :=
   match n with
-  | NPrim _ _ _ => bind (attr_seq n) (fun s => gen_Primitive_format s args)
+  | NPrim name a r => bind (gen_Primitive_seq name a r) (fun s => gen_Primitive_format s args)
   | NClass _ _ => None
   | _ => match args with
          | [] => bind (attr_conv_fct n) (fun f => bind (attr_value ps n) (fun v => gen_Terminal_format f v))
@@ -311,6 +317,10 @@ class Tr(object):
                 return [], "v_" + e.id, env[e.id]
             refuse(e, "name %s is not bound (or is a global outside the grammar)" % e.id)
         if isinstance(e, ast.Attribute):
+            if isinstance(e.value, ast.Name) and e.value.id == "self" and self.sig.get("selfstore"):
+                if "self." + e.attr not in env:
+                    refuse(e, "attribute self.%s is read before it is set" % e.attr)
+                return [], "v_self_" + e.attr, env["self." + e.attr]
             if isinstance(e.value, ast.Name) and e.value.id == "self" and "selfattrs" in self.sig:
                 a = self.sig["selfattrs"].get(e.attr)
                 if a is None:
@@ -525,6 +535,20 @@ class Tr(object):
                     refuse(e, "str of a %s" % (ty,))
                 x = self.fresh()
                 return pre + [(x, "(gen_str %s %s)" % (self.sig["heap"], t))], x, "str"
+            if n == "range" and len(args) == 1:
+                pre, t, ty = self.expr(args[0], env)
+                if ty != "nat":
+                    refuse(e, "range of a %s" % (ty,))
+                return pre, "(range_ %s)" % t, L("nat")
+            if n == "map" and len(args) == 2:
+                fn = args[0]
+                if not (isinstance(fn, ast.Attribute) and fn.attr == "format" and isinstance(fn.value, ast.Constant)
+                        and fn.value.value == "{{{0}}}"):
+                    refuse(e, "map of another function than \"{{{0}}}\".format")
+                pre, t, ty = self.expr(args[1], env)
+                if ty != L("nat"):
+                    refuse(e, "field numbers of type %s" % (ty,))
+                return pre, "(map tpl_field %s)" % t, L("tpl")
             if n == "deque" and not args:
                 return [], "[]", L("?")
             if n in ("reversed", "list") and len(args) == 1:
@@ -603,18 +627,27 @@ class Tr(object):
                     if k.arg is None:
                         refuse(e, "** in format")
                     p, t, ty = self.expr(k.value, env)
-                    if ty != "str":
+                    if ty not in ("str", "tpl"):
                         refuse(e, "format field of type %s" % (ty,))
                     pre += p
-                    kw[k.arg] = t
+                    kw[k.arg] = (t, ty)
+                as_tpl = any(ty == "tpl" for _, ty in kw.values())
                 parts = []
                 for lit_, field, spec, conv_ in _string.Formatter().parse(f.value.value):
                     if lit_:
-                        parts.append(cstr(lit_))
+                        if as_tpl and ("{" in lit_ or "}" in lit_):
+                            refuse(e, "escaped braces in a format string that is formatted again")
+                        parts.append("(tpl_lit %s)" % cstr(lit_) if as_tpl else cstr(lit_))
                     if field is not None:
                         if spec or conv_ or field not in kw:
                             refuse(e, "format field {%s}" % field)
-                        parts.append(kw[field])
+                        t, ty = kw[field]
+                        parts.append("(tpl_lit %s)" % t if as_tpl and ty == "str" else t)
+                if as_tpl:
+                    txt = parts[-1] if parts else "[]"
+                    for p in reversed(parts[:-1]):
+                        txt = "(%s ++ %s)" % (p, txt)
+                    return pre, txt, "tpl"
                 if not parts:
                     parts = ['""']
                 txt = parts[-1]
@@ -624,6 +657,8 @@ class Tr(object):
             if m == "join" and len(e.args) == 1 and not e.keywords:
                 p1, t1, y1 = self.expr(f.value, env)
                 p2, t2, y2 = self.expr(e.args[0], env)
+                if y1 == "str" and y2 == L("tpl"):
+                    return p1 + p2, "(tpl_join %s %s)" % (t1, t2), "tpl"
                 if y1 != "str" or y2 != L("str"):
                     refuse(e, "join of %s, %s" % (y1, y2))
                 return p1 + p2, "(String.concat %s %s)" % (t1, t2), "str"
@@ -633,8 +668,8 @@ class Tr(object):
                 if not fits(y2, L("str")):
                     refuse(e, "format( *%s )" % (y2,))
                 x = self.fresh()
-                if y1 == "seqstr":
-                    return p1 + p2 + [(x, "(seq_format %s %s)" % (t1, t2))], x, "str"
+                if y1 == "tpl":
+                    return p1 + p2 + [(x, "(tpl_format %s %s)" % (t1, t2))], x, "str"
                 if y1 == "node" and "heap" in self.sig:
                     return p1 + p2 + [(x, "(gen_format %s %s %s)" % (self.sig["heap"], t1, t2))], x, "str"
                 refuse(e, "format method of a %s" % (y1,))
@@ -779,6 +814,14 @@ class Tr(object):
                 refuse(s, "same name twice")
             env2[a], env2[b] = vt[1], vt[2]
             return wrap(pre + [("'(v_%s, v_%s) := %s" % (a, b, t), None)], cont(env2))
+        if isinstance(target, ast.Attribute) and isinstance(target.value, ast.Name) and target.value.id == "self" \
+                and self.sig.get("selfstore"):
+            pre, t, vt = self.expr(value, env)
+            if vt == "mbool" or vt == "?":
+                refuse(s, "attribute value of type %s" % (vt,))
+            env2 = dict(env)
+            env2["self." + target.attr] = vt
+            return wrap(pre + [("v_self_%s := %s" % (target.attr, t), None)], cont(env2))
         if isinstance(target, ast.Subscript):
             rd, ty, setter, base = self.place(target.value, env)
             pv, tv, yv = self.expr(value, env)
@@ -1154,7 +1197,7 @@ class Tr(object):
             refuse(fd, "parameter list outside the grammar")
         expected = list(sig["env"].keys())
         got = [x.arg for x in a.args]
-        if "selfattrs" in sig:
+        if "selfattrs" in sig or sig.get("selfstore"):
             if not got or got[0] != "self":
                 refuse(fd, "method without self")
             got = got[1:]
@@ -1208,7 +1251,14 @@ class Tr(object):
                 if n.func.attr == "pop" and not n.args:
                     continue
                 self.fresh_item_lists.discard(n.func.value.id)
-        if sig["ends"] == "self":
+        if sig["ends"].startswith("attr:"):
+            attr = sig["ends"][5:]
+
+            def tail(e2):
+                if "self." + attr not in e2:
+                    refuse(fd, "self.%s is not set" % attr)
+                return "ret v_self_" + attr
+        elif sig["ends"] == "self":
             def tail(e2):
                 return "ret v_self"
         else:
